@@ -118,6 +118,14 @@ CHECKS = {
                 "Uuid/[u8;16]/u128 conversions as big-endian identities. Random and time bits are opaque inputs.",
         "technique": "static analysis: abstract interpretation with per-bit provenance over MIR (all paths), sibling routing-kernel rule, quantifier-shape rule",
     },
+    "C22": {
+        "text": "Decides only that a well-formed or malformed request cannot kill the connection task from inside the handlers, encoders, Command::{try_from,handle} and "
+                "Conn::{run,handle_request}: every overflow / division / unwrap / index / explicit panic there is discharged by an interval, a guard or a frozen, reasoned "
+                "allow-list entry; handler and parse errors are mapped to SimpleError replies and no io::Error is constructed in the request path. The comparison with the "
+                "reference event-store model (versions, has_more flags) is not decided.",
+        "note": NOTE + " The allow-list (16 entries) is part of the trusted base; each entry names one (function, site, occurrence) with its reason and is printed in the evidence.",
+        "technique": "static analysis: panic audit with intervals and a frozen allow-list, error-mapping shape rules on MIR",
+    },
     "C04": {
         "text": "For all paths of both commit-matching readers: a Transaction is returned only under commit id == pending id and a non-empty list, a Single only "
                 "under a set flag and an empty list, a change of the pending id resets the list, and the two sibling implementations have the same "
